@@ -194,7 +194,7 @@ func genC14(t *rapid.T) c14Case {
 		// (extension bit, length, count, index, bitmap bit, number) and writes the rest as is
 		_, w, _ := refper.Encode(base.value(), gen.PDUTag)
 		at := rapid.IntRange(0, w.Opps-1).Draw(t, "at")
-		variant := rapid.IntRange(0, 24).Draw(t, "variant")
+		variant := rapid.IntRange(0, 39).Draw(t, "variant")
 		hb, hit, _, err := refper.EncodeFault(base.value(), gen.PDUTag, at, variant)
 		if err != nil {
 			t.Skip("fault encoder refused")
@@ -319,13 +319,16 @@ func TestC14_Structural(t *testing.T) {
 			}
 			n := countIEs(pdu)
 			for at := 0; at < w.Opps; at++ {
-				for _, variant := range []int{1, 2, 16, 19} {
+				for _, variant := range []int{1, 2, 16, 19, 26, 31, 36} {
 					hb, hit, _, err := refper.EncodeFault(pdu, gen.PDUTag, at, variant)
 					if err != nil || hit == "" {
 						continue
 					}
-					if variant >= 15 && !strings.HasPrefix(hit, "len/fragment-run") {
+					if variant >= 15 && variant < 20 && !strings.HasPrefix(hit, "len/fragment-run") {
 						continue // same alteration as variant%5 for fields that are not general lengths
+					}
+					if variant >= 20 && !strings.Contains(hit, "content-octets") {
+						continue // only meaningful for extensible INTEGERs
 					}
 					if len(hb) > 4096 {
 						hb = hb[:4096]
